@@ -158,6 +158,9 @@ class Project:
         rng = self.rng
         for ns, path, leaf in self.all_leaves():
             leaf_ty = rng.choice([None, None, "u32"])      # one count type per key, so that few projects are rejected
+            for v in leaf.values():
+                if v[0] == "range":
+                    leaf_ty = v[1]
             for loc in self.locales:
                 if loc in leaf:
                     continue
@@ -169,7 +172,7 @@ class Project:
                 elif r < 0.22:
                     leaf[loc] = ("lit", rng.choice([5, -3, True, 1.5]))
                 elif r < 0.30 and not any(v[0] in ("plural", "fk") for v in leaf.values()):
-                    leaf[loc] = ("range", leaf_ty if rng.random() < 0.97 else rng.choice([None, "u32"]),
+                    leaf[loc] = ("range", leaf_ty if rng.random() < 0.98 else rng.choice([None, "u32"]),
                                  [(neutral_parts(rng), [0]), (neutral_parts(rng), [1, 2]), (neutral_parts(rng), ["_"])])
                 else:
                     leaf[loc] = ("parts", neutral_parts(rng))
@@ -213,7 +216,12 @@ class Project:
             out = parts_pushes(prefix)
             for p in tp:
                 if p[0] == "var" and p[1] in args:
-                    out += parts_pushes(args[p[1]])
+                    out += parts_pushes(args[p[1]])          # the argument replaces the variable, formatter included
+                elif p[0] == "count" and "count" in args:
+                    # `{"count": "{{ n, fmt }}"}`: the count is renamed to n (the formatter written there only shows where
+                    # `{{ count }}` occurs in the forms, which the branch above substitutes)
+                    newv = [a for a in args["count"] if a[0] == "var"][0]
+                    out.append(("count", "var_" + newv[1], p[2]))
                 else:
                     out.append(p)
             return out
@@ -290,7 +298,7 @@ class Project:
         items = []
         for x in p:
             if x[0] == "var":
-                items.append("PushVar %d %s" % (intern("v:" + x[1]), FMT_COQ[x[2]]))
+                items.append("PushVar %d %s" % (intern("v:var_" + x[1]), FMT_COQ[x[2]]))   # `{{ count }}` IS the count key
             elif x[2] == "plural":
                 items.append("PushCount %d Plural" % intern("v:" + x[1]))
             else:
@@ -317,8 +325,29 @@ class Project:
         return "(PLocales %s)" % locs(None)
 
 
-def option_value(rng, opt):
-    """a value that uses the option"""
+RANGE_TYPES = [None, "i8", "i16", "i32", "i64", "u8", "u16", "u32", "u64", "f32", "f64"]
+
+
+def option_value(rng, opt, mode="plain", rty=None):
+    """a value that uses the option.  mode (formatter options): "plain" = on an ordinary variable; "plural_count" /
+    "range_count" = on the COUNT variable of a plural / of a range (`{{ count, number }}` inside the forms / arms)"""
+    if opt != "Plurals" and mode in ("plural_count", "range_count"):
+        def counted():
+            f = rng.choice(FMT_OF_OPTION[opt])
+            parts = [("var", "count", f, rng.choice(FMT_ARGS[f]))]
+            if rng.random() < 0.5:
+                parts = neutral_parts(rng) + parts + [("txt", " x")]
+            if rng.random() < 0.2:
+                parts = [("comp", "b", parts)]
+            return parts
+        if mode == "plural_count":
+            forms = {"one": counted() if rng.random() < 0.7 else neutral_parts(rng), "other": counted()}
+            return ("plural", rng.random() < 0.3, forms)
+        arms = [(counted() if rng.random() < 0.6 else neutral_parts(rng), [rng.choice([0, 1, 2])]),
+                (counted(), ["_"] if rng.random() < 0.6 else ["3.."])]
+        if arms[-1][1] != ["_"]:
+            arms.append((neutral_parts(rng), ["_"]))
+        return ("range", rty, arms)
     if opt == "Plurals":
         ordinal = rng.random() < 0.3
         forms = {"one": neutral_parts(rng), "other": [("var", "count", None, ""), ("txt", " items")] if rng.random() < 0.5
@@ -332,7 +361,8 @@ def option_value(rng, opt):
 
 
 PLACEMENTS = ["nowhere", "nowhere", "default_only", "nondefault_only", "deep_subkey", "one_namespace", "via_fk_arg", "via_fk",
-              "surplus_only", "everywhere"]
+              "surplus_only", "everywhere", "count_rename", "count_here_plain_there"]
+MODES = ["plain", "plain", "plural_count", "range_count", "range_count"]
 
 
 def gen_project(rng):
@@ -355,6 +385,10 @@ def gen_project(rng):
             pl = "default_only"
         if pl == "via_fk_arg" and opt == "Plurals":
             pl = "via_fk"
+        if pl in ("count_rename", "count_here_plain_there") and (opt == "Plurals" or (pl == "count_here_plain_there" and not nondefault)):
+            pl = "default_only"
+        mode = "plain" if opt == "Plurals" else rng.choice(MODES)
+        rty = rng.choice(RANGE_TYPES)
         if pl == "nowhere":
             plan[opt] = pl
             continue
@@ -364,8 +398,8 @@ def gen_project(rng):
                 continue
             loc = rng.choice(nondefault)
             ns = rng.choice(list(p.trees))
-            p.surplus.setdefault((ns, loc), []).append(("extra_%s" % opt.lower(), option_value(rng, opt)))
-            plan[opt] = pl
+            p.surplus.setdefault((ns, loc), []).append(("extra_%s" % opt.lower(), option_value(rng, opt, mode, rty)))
+            plan[opt] = pl + ":" + mode
             continue
         pred = lambda ns, path: True
         if pl == "deep_subkey":
@@ -388,6 +422,36 @@ def gen_project(rng):
             locs = p.locales[:]
         else:
             locs = [rng.choice(p.locales)]
+        if pl == "count_here_plain_there":
+            # the same variable is the count of a plural / range in one locale and a plain formatted variable in another
+            f = rng.choice(FMT_OF_OPTION[opt])
+            a, b = rng.sample(p.locales, 2)
+            if rng.random() < 0.5:
+                leaf[a] = ("plural", False, {"one": neutral_parts(rng), "other": [("var", "count", None, ""), ("txt", " items")]})
+            else:
+                leaf[a] = ("range", rty, [(neutral_parts(rng), [0]), ([("var", "count", None, "")], ["_"])])
+            leaf[b] = ("parts", neutral_parts(rng) + [("var", "count", f, rng.choice(FMT_ARGS[f]))])
+            plan[opt] = "%s@count:%s,formatted:%s" % (pl, a, b)
+            continue
+        if pl == "count_rename":
+            # the formatter exists only in the `count` argument of a foreign key to a plural / range that shows its count
+            t = pick_leaf(lambda tns, tpath: tns == ns or p.namespaces)
+            if t is None:
+                pl = "default_only"
+            else:
+                tns, tpath, tleaf = t
+                as_plural = rng.random() < 0.5
+                for loc in p.locales:
+                    shown = [("txt", "n="), ("var", "count", None, "")]
+                    if as_plural:
+                        tleaf[loc] = ("plural", False, {"one": shown if rng.random() < 0.5 else neutral_parts(rng), "other": shown})
+                    else:
+                        tleaf[loc] = ("range", rty, [(neutral_parts(rng), [0]), (shown, ["_"])])
+                f = rng.choice(FMT_OF_OPTION[opt])
+                for loc in locs:
+                    leaf[loc] = ("fk", tns, tpath, {"count": [("var", "n", f, rng.choice(FMT_ARGS[f]))]}, [])
+                plan[opt] = "count_rename@%s(%s)" % (",".join(locs), "plural" if as_plural else "range")
+                continue
         if pl in ("via_fk_arg", "via_fk"):
             t = pick_leaf(lambda tns, tpath: tns == ns or p.namespaces)
             if t is None:
@@ -398,7 +462,7 @@ def gen_project(rng):
                     if pl == "via_fk_arg":
                         tleaf[loc] = ("parts", [("txt", "v: "), ("var", "arg", None, ""), ("txt", "!")])
                     elif loc in locs:
-                        tleaf[loc] = option_value(rng, opt)
+                        tleaf[loc] = option_value(rng, opt, mode, rty)
                     else:
                         tleaf[loc] = ("parts", neutral_parts(rng))
                 for loc in locs:
@@ -407,11 +471,11 @@ def gen_project(rng):
                         f = rng.choice(FMT_OF_OPTION[opt])
                         args = {"arg": [("var", "z", f, rng.choice(FMT_ARGS[f]))]}
                     leaf[loc] = ("fk", tns, tpath, args, [("txt", "see ")] if rng.random() < 0.5 else [])
-                plan[opt] = "%s@%s" % (pl, ",".join(locs))
+                plan[opt] = "%s:%s@%s" % (pl, mode if pl == "via_fk" else "plain", ",".join(locs))
                 continue
         for loc in locs:
-            leaf[loc] = option_value(rng, opt)
-        plan[opt] = "%s@%s%s" % (pl, ",".join(locs), "(depth %d)" % len(path))
+            leaf[loc] = option_value(rng, opt, mode, rty)
+        plan[opt] = "%s:%s@%s%s" % (pl, mode, ",".join(locs), "(depth %d)" % len(path))
     # rarely: a range and a plural on the same key in different locales (the parser rejects the project)
     if rng.random() < 0.04 and len(p.locales) >= 2:
         c = pick_leaf()
@@ -498,7 +562,7 @@ def run(ctx):
     hist = {}
     for m in meta:
         for o, pl in m["plan"].items():
-            k = "%s:%s" % (o, pl.split("@")[0])
+            k = "%s:%s" % (o, pl.split("@")[0].split("(")[0])
             hist[k] = hist.get(k, 0) + 1
     combos = {}
     for m in meta:
